@@ -384,10 +384,82 @@ fn main() {
         }
         out
     });
+    // ---- standard-library relations through midnight_zk_stdlib::{setup_vk, setup_pk, prove, verify}
+    stdlib_relations(&mut cx);
     cx.states = states.load(std::sync::atomic::Ordering::Relaxed);
     cx.transitions = cx.counter_value("schedule_events");
     cx.traces_validated = traces.load(std::sync::atomic::Ordering::Relaxed);
     let acc = cx.class_count("lattice:accept");
     cx.require(acc > 20, "fewer than 20 accepted honest proofs");
     cx.finish()
+}
+
+/// Honest prove/verify of the standard-library relations of `vfam::stdrel`, under both transcript
+/// hashes, several witnesses each (thorough adds SHA-256, k = 13).
+fn stdlib_relations(cx: &mut Ctx) {
+    use ff::Field;
+    use midnight_circuits::hash::poseidon::PoseidonState;
+    use midnight_curves::Fq as F;
+    use midnight_proofs::transcript::{Hashable, Sampleable, TranscriptHash};
+    use midnight_zk_stdlib::{MidnightCircuit, Relation};
+    use rand_chacha::ChaCha20Rng;
+    use rand_core::SeedableRng;
+    use vfam::stdrel::{RelJub, RelPos, RelSha, RelSq};
+
+    fn round<R: Relation, H: TranscriptHash>(rel: &R, inst: &R::Instance, wit: R::Witness, seed: u64) -> Result<bool, String>
+    where
+        midnight_curves::G1Projective: Hashable<H>,
+        F: Hashable<H> + Sampleable<H>,
+    {
+        let k = MidnightCircuit::from_relation(rel).min_k();
+        let srs = (*vfam::api::setup(k, seed)).clone();
+        let vk = midnight_zk_stdlib::setup_vk(&srs, rel);
+        let pk = midnight_zk_stdlib::setup_pk(rel, &vk);
+        let proof = midnight_zk_stdlib::prove::<R, H>(&srs, &pk, rel, inst, wit, ChaCha20Rng::seed_from_u64(seed ^ 0xabc)).map_err(|e| format!("prove: {e:?}"))?;
+        Ok(midnight_zk_stdlib::verify::<R, H>(&srs.verifier_params(), &vk, inst, None, &proof).is_ok())
+    }
+    let seed = cx.seed;
+    let thorough = cx.tier.is_thorough();
+    let mut rng = cx.rng("c01-stdlib");
+    let mut cases: Vec<(String, (u8, u8, u64))> = vec![];
+    for rel in 0..if thorough { 4u8 } else { 3u8 } {
+        for hash in 0..2u8 {
+            for w in 0..if rel == 3 { 1u64 } else { 3u64 } {
+                cases.push((format!("rel{rel}-hash{hash}-w{w}"), (rel, hash, w)));
+            }
+        }
+    }
+    let wf: Vec<F> = vec![F::ZERO, -F::ONE, F::random(&mut rng)];
+    let ws: Vec<midnight_curves::Fr> = vec![midnight_curves::Fr::ZERO, -midnight_curves::Fr::ONE, midnight_curves::Fr::random(&mut rng)];
+    cx.run_cases_with("stdlib-relations", &cases, 8, |(rel, hash, w)| {
+        let mut out = CaseOut::batch();
+        let wi = *w as usize;
+        let r = vcore::catch(|| -> Result<bool, String> {
+            match (rel, hash) {
+                (0, 0) => round::<RelSq, blake2b_simd::State>(&RelSq { c: 5 }, &RelSq { c: 5 }.statement(wf[wi]), wf[wi], seed),
+                (0, _) => round::<RelSq, PoseidonState<F>>(&RelSq { c: 5 }, &RelSq { c: 5 }.statement(wf[wi]), wf[wi], seed),
+                (1, 0) => round::<RelPos, blake2b_simd::State>(&RelPos, &RelPos::statement(&[wf[wi], wf[(wi + 1) % 3]]), [wf[wi], wf[(wi + 1) % 3]], seed),
+                (1, _) => round::<RelPos, PoseidonState<F>>(&RelPos, &RelPos::statement(&[wf[wi], wf[(wi + 1) % 3]]), [wf[wi], wf[(wi + 1) % 3]], seed),
+                (2, 0) => round::<RelJub, blake2b_simd::State>(&RelJub, &RelJub::statement(&ws[wi]), ws[wi], seed),
+                (2, _) => round::<RelJub, PoseidonState<F>>(&RelJub, &RelJub::statement(&ws[wi]), ws[wi], seed),
+                (_, 0) => round::<RelSha, blake2b_simd::State>(&RelSha, &RelSha::statement(&[7u8; 24]), [7u8; 24], seed),
+                (_, _) => round::<RelSha, PoseidonState<F>>(&RelSha, &RelSha::statement(&[7u8; 24]), [7u8; 24], seed),
+            }
+        });
+        let name = ["RelSq", "RelPos", "RelJub", "RelSha"][*rel as usize];
+        match r {
+            Err(p) => out.viol(Viol::new(format!("stdlib:{name}:panic:{}", vcore::panic_site(&p)), format!("std-lib prove/verify panicked: {p}"), json!({}))),
+            Ok(Err(e)) => {
+                out.eval("stdlib:prover-error", true);
+                out.viol(Viol::new(format!("stdlib:{name}:prover-error"), format!("prove failed on an honest witness: {e}"), json!({})));
+            }
+            Ok(Ok(ok)) => {
+                out.eval(if ok { "stdlib:accept" } else { "stdlib:reject" }, true);
+                if !ok {
+                    out.viol(Viol::new(format!("stdlib:{name}:honest-rejected"), "midnight_zk_stdlib::verify rejects an honest proof".to_string(), json!({"hash": hash, "witness": w})));
+                }
+            }
+        }
+        out
+    });
 }
